@@ -182,6 +182,10 @@ def fndef(n, ps, body):
     return {"t": "fndef", "n": n, "ps": list(ps), "body": body}
 
 
+def filt(pat, act):
+    return {"t": "filter", "pat": pat if pat is not None else {"t": "none"}, "act": act}
+
+
 def obs(e):
     """push(OBS, e);"""
     return expr(call("push", ident("OBS"), e))
@@ -358,6 +362,9 @@ class Renderer:
             return "return%s;" % ("" if s["e"]["t"] == "none" else " " + self.e(s["e"], 0))
         if t == "fndef":
             return "fn %s(%s) %s" % (s["n"], ", ".join(s["ps"]), self.inline_block(s["body"]))
+        if t == "filter":
+            pat = "" if s["pat"]["t"] == "none" else self.e(s["pat"], P_ASSIGN) + " "
+            return "@ %s%s" % (pat, self.inline_block(s["act"]))
         if t == "rawstmt":
             return s["s"]
         raise ValueError("unknown statement node %r" % t)
@@ -405,6 +412,7 @@ class Renderer:
                     x = el
                     continue
                 break
+            self.emit(";")      # an if expression followed by '(' or '[' on the next line would be a call / index
         else:
             self.emit(self.stmt_inline(s))
         self.newline()
